@@ -38,19 +38,20 @@ FieldKinds(self) == {"i2i", "i2s", "ptrA", "ptrB", "slcA", "slcB"} \cup (IF self
 \* ... and *B -> B2, *int -> string through E (SourcePointer, needs useZeroValueOnPointerInconsistency: the harness sets it for these programs)
 \* ... and a target field int matched with a source *method* F() int / F() (int, error) (fallible iff extErr)
 \* ... int -> *string through E (a value source with a pointer target)
-MoreKinds == {"s2s", "mapB", "mapK", "mapV", "mapKV", "p2vB", "p2s", "mth", "i2ps"}
+\* ... pointer to int -> pointer to string (a pointer pair built inline), and a map whose values are slices of int -> string
+MoreKinds == {"s2s", "mapB", "mapK", "mapV", "mapKV", "p2vB", "p2s", "mth", "i2ps", "pp2s", "mapVS"}
 \* third program set (useUnderlyingTypeMethods): NI (named int) -> string through E on the underlying type; LP (named []*int) -> []int
 \* through the declared method ConvL(source []*int) []int, the only method with useZeroValueOnPointerInconsistency
 UnderKinds == {"nI2s", "nL"}
 SrcT(fk) == CASE fk \in {"i2i", "i2s", "i2ps"} -> INT
-              [] fk = "s2s" -> STR [] fk = "p2s" -> P(INT) [] fk = "mth" -> [k |-> "meth", b |-> "int"]
+              [] fk = "s2s" -> STR [] fk \in {"p2s", "pp2s"} -> P(INT) [] fk = "mapVS" -> M(STR, S(INT)) [] fk = "mth" -> [k |-> "meth", b |-> "int"]
               [] fk = "nI2s" -> NN("NI", INT) [] fk = "nL" -> NN("LP", S(P(INT)))
               [] fk = "mapB" -> M(STR, N("B")) [] fk \in {"mapK", "mapKV"} -> M(INT, INT) [] fk = "mapV" -> M(STR, INT)
               [] fk = "ptrA" -> P(N("A")) [] fk \in {"ptrB", "p2vB"} -> P(N("B"))
               [] fk = "slcA" -> S(N("A")) [] fk = "slcB" -> S(N("B"))
               [] fk = "valB" -> N("B")
 TgtT(fk) == CASE fk \in {"i2i", "mth"} -> INT [] fk = "i2s" -> STR
-              [] fk \in {"s2s", "p2s", "nI2s"} -> STR [] fk = "nL" -> S(INT) [] fk = "i2ps" -> P(STR)
+              [] fk \in {"s2s", "p2s", "nI2s"} -> STR [] fk = "nL" -> S(INT) [] fk \in {"i2ps", "pp2s"} -> P(STR) [] fk = "mapVS" -> M(STR, S(STR))
               [] fk = "mapB" -> M(STR, N("B2")) [] fk = "mapK" -> M(STR, INT) [] fk \in {"mapV", "mapKV"} -> M(STR, STR)
               [] fk = "ptrA" -> P(N("A2")) [] fk = "ptrB" -> P(N("B2"))
               [] fk = "slcA" -> S(N("A2")) [] fk = "slcB" -> S(N("B2"))
@@ -279,10 +280,10 @@ AllKindsA == FieldKinds("A") \cup MoreKinds
 ShapesMore == {<<a>> : a \in AllKindsA} \cup {<<a, b>> : a \in AllKindsA, b \in AllKindsA}
 \* wrap "plain" = wrapErrors (fmt.Errorf chain): only where something can fail, and without maps (the statement names fields and
 \* indices only; the code adds nothing when the innermost element is a map key)
-MapKinds == {"mapB", "mapK", "mapV", "mapKV"}
+MapKinds == {"mapB", "mapK", "mapV", "mapKV", "mapVS"}
 HasMapKind(sh) == \E i \in DOMAIN sh : sh[i] \in MapKinds
 ProgsMore0 == { [shape |-> [A |-> a, B |-> b], rootErr |-> eb[1], extErr |-> eb[2], rootCtx |-> FALSE, extCtx |-> FALSE, extId |-> xi, wrap |-> w, declB |-> "none", under |-> FALSE, declL |-> FALSE] :
-                 a \in {x \in ShapesMore : \E i \in DOMAIN x : x[i] \in MoreKinds}, b \in {<<"i2i">>, <<"i2s">>, <<"i2s", "ptrB">>, <<"s2s", "i2s">>, <<"p2s", "i2i">>, <<"mth", "i2i">>, <<"i2ps", "slcB">>},
+                 a \in {x \in ShapesMore : \E i \in DOMAIN x : x[i] \in MoreKinds}, b \in {<<"i2i">>, <<"i2s">>, <<"i2s", "ptrB">>, <<"s2s", "i2s">>, <<"p2s", "i2i">>, <<"mth", "i2i">>, <<"i2ps", "slcB">>, <<"pp2s", "mapVS">>},
                  eb \in {<<TRUE, TRUE>>, <<FALSE, FALSE>>, <<TRUE, FALSE>>}, xi \in BOOLEAN, w \in {"none", "using", "plain"} }
 ProgsMore == { q \in ProgsMore0 : q.wrap = "plain" => (q.rootErr /\ q.extErr /\ ~HasMapKind(q.shape.A) /\ ~HasMapKind(q.shape.B)) }
 \* programs in which B is reachable from A (otherwise B's shape is irrelevant): one representative shape for B
